@@ -8,7 +8,7 @@ from symx.engine import site
 ID = "C02"
 MODULES = ["hta.trace_analysis"]
 MUST_NOT_RAISE = True
-BUDGET_S = {"quick": 300, "thorough": 2400}
+BUDGET_S = {"quick": 300, "thorough": 1200}
 BOUNDS = {
     "quick": "event 0 a host operator + every word of 1..3 further events over {runtime call, kernel (stream>0), "
              "Event Sync (stream -1), host operator, metadata entry}; correlation ids symbolic in [-1,2] with "
